@@ -3,6 +3,7 @@ package main
 import (
 	"math/big"
 	"strings"
+	"unicode/utf8"
 )
 
 // ---------------------------------------------------------------------------
@@ -161,7 +162,74 @@ type listOpt struct {
 	dups        float64
 	emptyWord   float64
 	taint       bool
-	forceAllCap bool // every kept word must change under title-casing
+	forceAllCap bool    // every kept word must change under title-casing
+	raw         float64 // probability of a word that is not valid UTF-8 (C04, C05, C06 only; see escWord)
+}
+
+// Words that are not valid UTF-8 (Latin-1 bytes, truncated sequences). Configurations are written to
+// JSON (replay files), which cannot carry such strings: in a configuration each invalid byte b is
+// written as the private-use rune U+F700+b (escWord) and turned back into the byte where the real
+// list and the model are built (realWords, called by WLCfg.build and modelList).
+var rawStems = []string{"caf\xe9", "\xffa", "na\xc3", "b\xa9\xa9", "\xe9t\xe9", "x\xe2\x82"}
+
+func escWord(w string) string {
+	if utf8.ValidString(w) {
+		return w
+	}
+	var sb strings.Builder
+	for i := 0; i < len(w); {
+		r, sz := utf8.DecodeRuneInString(w[i:])
+		if r == utf8.RuneError && sz == 1 {
+			sb.WriteRune(0xF700 + rune(w[i]))
+		} else {
+			sb.WriteString(w[i : i+sz])
+		}
+		i += sz
+	}
+	return sb.String()
+}
+
+func realWord(w string) string {
+	if !hasEscRune(w) {
+		return w
+	}
+	var sb strings.Builder
+	for _, r := range w {
+		if r >= 0xF780 && r <= 0xF7FF {
+			sb.WriteByte(byte(r - 0xF700))
+		} else {
+			sb.WriteRune(r)
+		}
+	}
+	return sb.String()
+}
+
+func hasEscRune(w string) bool {
+	for _, r := range w {
+		if r >= 0xF780 && r <= 0xF7FF {
+			return true
+		}
+	}
+	return false
+}
+
+// realWords returns the list with escaped bytes restored (the slice itself when nothing is escaped).
+func realWords(ws []string) []string {
+	any := false
+	for _, w := range ws {
+		if hasEscRune(w) {
+			any = true
+			break
+		}
+	}
+	if !any {
+		return ws
+	}
+	out := make([]string, len(ws))
+	for i, w := range ws {
+		out[i] = realWord(w)
+	}
+	return out
 }
 
 // genWords returns an input list (with duplicates, twins, ...). All kept
@@ -179,9 +247,19 @@ func genWords(r *Rng, o listOpt) []string {
 	perm := r.Perm(len(pool))
 	var out []string
 	used := 0
+	var forced []string
+	if o.raw > 0 && r.Chance(o.raw) {
+		forced = append(forced, pick(r, rawStems))
+		if r.Chance(0.3) {
+			forced = append(forced, pick(r, rawStems))
+		}
+	}
 	for len(out) < n {
 		var stem string
-		if used < len(perm) {
+		if len(forced) > 0 {
+			stem, forced = forced[0], forced[1:]
+			used--
+		} else if used < len(perm) {
 			stem = pool[perm[used]]
 		} else {
 			// synthesize extra stems
@@ -213,7 +291,7 @@ func genWords(r *Rng, o listOpt) []string {
 	p := r.Perm(len(out))
 	sh := make([]string, len(out))
 	for i, j := range p {
-		sh[i] = out[j]
+		sh[i] = escWord(out[j])
 	}
 	return sh
 }
@@ -393,8 +471,27 @@ func bigAlphabet(r *Rng, n int) string {
 	return b.String()
 }
 
+// genManyReqCfg: more required sets than any shortcut threshold is likely to sit at (11-13), short
+// passwords over a small alphabet so that every order of the inclusion-exclusion sum matters.
+func genManyReqCfg(r *Rng) CharCfg {
+	k := 11 + r.Intn(3)
+	pool := runes("abcdefghijklmnopqrstuvwxyz")
+	var sets []string
+	for i := 0; i < k; i++ {
+		if r.Chance(0.7) {
+			sets = append(sets, pool[i])
+		} else {
+			sets = append(sets, pool[i]+pool[(i+1+r.Intn(5))%len(pool)])
+		}
+	}
+	return CharCfg{Length: k + r.Intn(10), AllowChars: pick(r, []string{"", "", "0123", "xyz", "a"}), RequireSets: sets}
+}
+
 // genLargeCharCfg: long passwords and / or big alphabets with a few small requirements.
 func genLargeCharCfg(r *Rng) CharCfg {
+	if r.Chance(0.04) {
+		return genManyReqCfg(r)
+	}
 	c := genCharCfg(r, charOpt{maxLen: 24, maxReq: 3, noEmptied: r.Chance(0.7)})
 	c.Length = pick(r, []int{4, 8, 8, 16, 32, 64, 100, 127, 128, 129, 150, 200, 256, 300})
 	if r.Chance(0.01) {
